@@ -308,3 +308,59 @@ fn qpos(p: &Pre, slot: usize) -> usize {
     }
     r
 }
+
+
+/// Step(push) on `MergeUnbounded`: the last group takes the stream, or a group of
+/// twice its capacity is appended; nothing else moves; no stream is polled
+pub fn step_push_unbounded(c: &MUCfg) {
+    gh::reset();
+    let p0 = fub::gen_pre(c.caps[0], false);
+    let p1 = fub::gen_pre(c.caps[1], false);
+    let base = [0usize, c.caps[0]];
+    fub::gen_ghost_b(&p0, 0, base[0]);
+    fub::gen_ghost_b(&p1, 1, base[1]);
+    nd::assume(p0.filled > 0 || c.cursor == 0, "U4");
+    let gh = g();
+    let mut groups = std::vec::Vec::with_capacity(3);
+    groups.push(fub::build_g(&p0, 0, base[0], mk));
+    groups.push(fub::build_g(&p1, 1, base[1], mk));
+    let mut m = MergeUnbounded::verif_from_parts(groups, c.cursor);
+    let id = (c.caps[0] + c.caps[1]) as u8;
+    let len0 = m.len();
+    let a0 = gh::allocs();
+    gh::alloc_track(true);
+    m.push(Src { id });
+    gh::alloc_track(false);
+    let da = gh::allocs() - a0;
+    let full = p1.filled == c.caps[1];
+    vassert!(m.len() == len0 + 1 && !m.is_empty(), "C11:pushed source not held");
+    vassert!(gh.drops[id as usize % gh::NCH] == 0 && gh.total_child_polls == 0, "C12:push polled or dropped a source");
+    vassert!(m.verif_poll_next() == c.cursor, "C13:push moved the group cursor");
+    let n2 = m.verif_n_groups();
+    if full {
+        vassert!(n2 == 3, "C18:no group appended although the last group is full");
+        vassert!(m.verif_group(2).capacity() == 2 * c.caps[1] && m.verif_group(2).len() == 1, "C18:new group does not double the capacity (or does not hold the pushed source)");
+        vassert!(da <= 3, "C18:more than three allocations for a new group");
+        let s = fub::snap(m.verif_group(2), 2 * c.caps[1], 0);
+        vassert!(s.qlen == 1, "C01:pushed source not marked ready");
+        vcover!(true, "cover:push_new_group");
+    } else {
+        vassert!(n2 == 2, "C18:group appended although the last group has room");
+        vassert!(da == 0, "C18:MergeUnbounded allocated for a push although the last group has room");
+        let s = fub::snap(m.verif_group(1), c.caps[1], 0);
+        vassert!(s.filled == p1.filled + 1 && s.queued(p1.free_head), "C01:pushed source not held and marked ready in the last group");
+        vcover!(true, "cover:push_last_group");
+    }
+    let s0 = fub::snap(m.verif_group(0), c.caps[0], 0);
+    vassert!(s0.filled == p0.filled && s0.qlen == p0.qlen, "C11:push disturbed another group");
+    // C08: sources of the first group did not move
+    let mut i = 0;
+    while i < c.caps[0] {
+        if let Some(ch) = v::fub_peek(m.verif_group(0), i) {
+            let cid = ch.id as usize;
+            vassert!(gh.addr[cid % gh::NCH] == 0 || gh.addr[cid % gh::NCH] == ch as *const Src as usize, "C08:held source moved");
+        }
+        i += 1;
+    }
+    core::mem::forget(m);
+}
